@@ -36,6 +36,7 @@ func VxC07Order() {
 	vxReach("order")
 	for k := 0; k < 4; k++ {
 		got, _, err := vxDecide(preds[k], mk(a), mk(b))
+		vxObserve(fmt.Sprintf("order-%d", k), got)
 		vxAssert(err == nil, "order-no-error")
 		vxAssert(got == want[k], fmt.Sprintf("order-%d", k))
 	}
